@@ -14,6 +14,12 @@ package bufimage
 // source text has them, the owning module's name/commit, and a descriptor equal to what an independent
 // protocompile run produces for the same text. A planted compile error yields no image and one COMPILE
 // diagnostic at the planted file:line:column.
+//
+// Compile step (getBuildResult / buildImage / newFailedBuildResult, see "compile failures and warnings" below):
+// workspaces with 0..3 broken files (syntax error, undefined type, unresolvable import, duplicate message) and
+// warning-only files; no image and exactly one COMPILE diagnostic per broken file at the planted position,
+// warnings never fail a build, a failed result carries nothing but the error, and the image lists the files in
+// protoc's order (targets in sorted path order, imports first).
 
 import (
 	"context"
@@ -285,6 +291,42 @@ func (w *c1WS) expectedPaths() (map[string]bool, map[string]int) {
 	return out, pathToIndex
 }
 
+// expectedOrder is protoc's output order: depth first from the targets in sorted path order, a file after its
+// imports (in the order of the import statements).
+func (w *c1WS) expectedOrder() []string {
+	pathToIndex := map[string]int{}
+	for i, f := range w.files {
+		pathToIndex[f.path] = i
+	}
+	var targets []string
+	for _, t := range w.targets {
+		targets = append(targets, w.files[t].path)
+	}
+	sort.Strings(targets)
+	seen := map[string]bool{}
+	var out []string
+	var visit func(p string)
+	visit = func(p string) {
+		if seen[p] {
+			return
+		}
+		seen[p] = true
+		if i, ok := pathToIndex[p]; ok {
+			for _, imp := range w.files[i].imports {
+				visit(w.files[imp.to].path)
+			}
+			if w.files[i].wkt {
+				visit(c1WKTPath)
+			}
+		}
+		out = append(out, p)
+	}
+	for _, t := range targets {
+		visit(t)
+	}
+	return out
+}
+
 func c1IndependentCompile(ctx context.Context, sources map[string]string, paths []string) (map[string]*descriptorpb.FileDescriptorProto, error) {
 	compiler := protocompile.Compiler{
 		Resolver:       protocompile.WithStandardImports(&protocompile.SourceResolver{Accessor: protocompile.SourceAccessorFromMap(sources)}),
@@ -358,6 +400,15 @@ func (r *c1Run) checkImage(ctx context.Context, w *c1WS, image Image, how string
 	for _, f := range files {
 		if !expected[f.Path()] {
 			r.fail("only-targets-and-their-imports new-are-needed needed", "%s - %q is neither a target nor imported (transitively) by one", desc(), f.Path())
+		}
+	}
+	if how == "BuildImage" {
+		var gotOrder []string
+		for _, f := range files {
+			gotOrder = append(gotOrder, f.Path())
+		}
+		if want := w.expectedOrder(); len(want) == len(gotOrder) && fmt.Sprint(want) != fmt.Sprint(gotOrder) {
+			r.fail("compiler-gets-exactly-the-target-paths compiler-gets-sorted-non-empty-paths input-path-order", "%s - the files are not in protoc's order %v (the targets in sorted path order, each preceded by those of its imports, in import order, that are not listed yet)", desc(), want)
 		}
 	}
 	for k, f := range files {
@@ -772,7 +823,11 @@ func (r *c1Run) familyCompileErrors(ctx context.Context) {
 				wantLine, wantCol := planted+1, 3
 				what := fmt.Sprintf("%s with the undefined type `Missing` planted at %s:%d:%d", w.describe(), files[i].path, wantLine, wantCol)
 				if err == nil {
-					r.fail("built err", "%s - BuildImage returned an image (%v) and no diagnostics", what, c1PathsOf(image.Files()))
+					if image == nil {
+						r.fail("compile-failure-yields-no-image image-or-error built err", "%s - BuildImage returned neither an image nor diagnostics", what)
+						continue
+					}
+					r.fail("compile-failure-yields-no-image built err", "%s - BuildImage returned an image (%v) and no diagnostics", what, c1PathsOf(image.Files()))
 					continue
 				}
 				var set bufanalysis.FileAnnotationSet
@@ -899,7 +954,7 @@ func (r *c1Run) familyGetImage(ctx context.Context) {
 			handler := newParserAccessorHandler(ctx, bufmodule.ModuleReadBucketWithOnlyProtoFiles(bucket))
 			result := getBuildResult(ctx, handler, paths, false, true)
 			if result.Err != nil {
-				fmt.Printf("VERIF-REPLAY generator problem: %v\n", result.Err)
+				r.fail("warnings-do-not-fail success-exactly-when-clean one-compile-of-exactly-the-paths", "%s getBuildResult(paths %v): error %q; every file compiles (one has no syntax line, one an unused import: warnings)", w.describe(), paths, result.Err.Error())
 				continue
 			}
 			sorted, err := checkAndSortFiles(result.Files, paths)
@@ -1237,6 +1292,380 @@ func (r *c1Run) familyLsFiles(ctx context.Context) {
 	}
 }
 
+// ---- compile failures and warnings (getBuildResult / buildImage / newFailedBuildResult)
+//
+// Workspaces of five files in one module: a.proto, m/b.proto, z/d.proto (each importing and using e.proto) plus
+// e.proto and w.proto; each of the first three is good, warning-only (an import of w.proto nothing is used
+// from), or broken in one place: a syntax error, a field of an undefined type, an import of a file that does
+// not exist, a message defined twice. All 6 x 6 x 4 assignments x four target selections, built through BuildImage
+// and through getBuildResult (paths in sorted or in reverse order); and a good file importing a broken one.
+//
+// Oracle: the build succeeds iff no broken file is a target or imported by one (a warning never fails it);
+// then the image is checked like every other image; otherwise there is NO image and the error is a
+// FileAnnotationSet with exactly one COMPILE annotation per broken file, at the line:column where the
+// generator planted the breakage (path and external path = the file's path). One reservation, taken from the
+// compiler's documentation: an import that cannot be resolved is not reported through the reporter but
+// returned as the (positioned) compile error, which the compiler drops in favour of reported errors; its
+// annotation is required only when nothing else is broken.
+
+const (
+	c1Good = iota
+	c1Warn
+	c1Syntax
+	c1UnknownType
+	c1UnknownImport
+	c1Duplicate
+	c1States
+)
+
+var c1StateNames = [...]string{"good", "unused-import(warning)", "syntax-error", "undefined-type", "unresolvable-import", "duplicate-message"}
+
+type c1Site struct {
+	path     string
+	line     int
+	col      int
+	needle   string // what the message must mention
+	reported bool   // goes through the reporter
+}
+
+var c1BrokenPaths = []string{"a.proto", "m/b.proto", "z/d.proto", "e.proto", "w.proto"}
+
+// c1BrokenFile returns the file i of the family in the given state, importing the files in deps (and using a
+// message of each), and the planted site.
+func c1BrokenFile(i int, state int, deps []int) (c1File, *c1Site) {
+	path := c1BrokenPaths[i]
+	f := c1File{path: path, syntax: "proto3"}
+	var lines []string
+	lines = append(lines, "syntax = \"proto3\";", "package p;")
+	for _, d := range deps {
+		lines = append(lines, fmt.Sprintf("import %q;", c1BrokenPaths[d]))
+		f.imports = append(f.imports, c1Imp{d, c1Used})
+	}
+	var site *c1Site
+	switch state {
+	case c1Warn:
+		lines = append(lines, "import \"w.proto\";")
+		f.imports = append(f.imports, c1Imp{4, c1Unused})
+	case c1UnknownImport:
+		lines = append(lines, "import \"nowhere/none.proto\";")
+		site = &c1Site{path, len(lines), 8, "nowhere/none.proto", false}
+	}
+	lines = append(lines, fmt.Sprintf("message B%d {", i))
+	for k, d := range deps {
+		lines = append(lines, fmt.Sprintf("  B%d dep%d = %d;", d, k, k+1))
+	}
+	switch state {
+	case c1Syntax:
+		lines = append(lines, "  int32 broken = ;")
+		site = &c1Site{path, len(lines), 18, "syntax error", true}
+	case c1UnknownType:
+		lines = append(lines, "  Missing planted = 9;")
+		site = &c1Site{path, len(lines), 3, "Missing", true}
+	}
+	lines = append(lines, "}")
+	if state == c1Duplicate {
+		lines = append(lines, fmt.Sprintf("message B%d {}", i))
+		site = &c1Site{path, len(lines), 9, fmt.Sprintf("B%d", i), true}
+	}
+	f.src = strings.Join(lines, "\n") + "\n"
+	return f, site
+}
+
+type c1BrokenWS struct {
+	ws     *c1WS
+	sites  []*c1Site // per file, nil = not broken
+	states []int
+}
+
+func (b *c1BrokenWS) describe() string {
+	var parts []string
+	isT := map[int]bool{}
+	for _, t := range b.ws.targets {
+		isT[t] = true
+	}
+	for i, f := range b.ws.files {
+		var imps []string
+		for _, imp := range f.imports {
+			imps = append(imps, b.ws.files[imp.to].path)
+		}
+		t := ""
+		if isT[i] {
+			t = ",TARGET"
+		}
+		s := c1StateNames[b.states[i]]
+		if site := b.sites[i]; site != nil {
+			s += fmt.Sprintf(" planted at %d:%d", site.line, site.col)
+		}
+		parts = append(parts, fmt.Sprintf("%s(%s%s; imports %v)", f.path, s, t, imps))
+	}
+	return "workspace {" + strings.Join(parts, " ") + "}"
+}
+
+// the planted sites in files that are targets or imported by one, sorted by path
+func (b *c1BrokenWS) reachableSites() []*c1Site {
+	reach, pathToIndex := b.ws.expectedPaths()
+	var paths []string
+	for p := range reach {
+		paths = append(paths, p)
+	}
+	sort.Strings(paths)
+	var out []*c1Site
+	for _, p := range paths {
+		if i, ok := pathToIndex[p]; ok && b.sites[i] != nil {
+			out = append(out, b.sites[i])
+		}
+	}
+	return out
+}
+
+func c1AnnotationsOf(set bufanalysis.FileAnnotationSet) []string {
+	var seen []string
+	for _, a := range set.FileAnnotations() {
+		p, ext := "<none>", "<none>"
+		if a.FileInfo() != nil {
+			p, ext = a.FileInfo().Path(), a.FileInfo().ExternalPath()
+		}
+		seen = append(seen, fmt.Sprintf("%s(external %s):%d:%d-%d:%d:%s:%q", p, ext, a.StartLine(), a.StartColumn(), a.EndLine(), a.EndColumn(), a.Type(), a.Message()))
+	}
+	return seen
+}
+
+func c1Matches(a bufanalysis.FileAnnotation, s *c1Site) bool {
+	return a.FileInfo() != nil && a.FileInfo().Path() == s.path && a.FileInfo().ExternalPath() == s.path &&
+		a.StartLine() == s.line && a.StartColumn() == s.col && a.EndLine() == s.line && a.EndColumn() == s.col &&
+		a.Type() == "COMPILE" && strings.Contains(a.Message(), s.needle)
+}
+
+// checkDiagnostics compares the error of a failed build with the planted sites.
+func (r *c1Run) checkDiagnostics(what string, err error, sites []*c1Site) {
+	var wantAll []string
+	nReported := 0
+	for _, s := range sites {
+		wantAll = append(wantAll, fmt.Sprintf("%s:%d:%d(%s)", s.path, s.line, s.col, s.needle))
+		if s.reported {
+			nReported++
+		}
+	}
+	var set bufanalysis.FileAnnotationSet
+	if !errors.As(err, &set) || set == nil {
+		r.fail("positioned-error-gives-its-annotation invalid-source-gives-annotations reported-errors-become-the-diagnostics diagnostics-are-the-reported-errors never-aborts", "%s - the error is the plain %T %q, not a set of positioned diagnostics; want COMPILE diagnostics at %v", what, err, err.Error(), wantAll)
+		return
+	}
+	annotations := set.FileAnnotations()
+	used := make([]bool, len(annotations))
+	nFound := 0
+	for n, s := range sites {
+		found := false
+		for k, a := range annotations {
+			if !used[k] && c1Matches(a, s) {
+				used[k] = true
+				found = true
+				nFound++
+				break
+			}
+		}
+		// an unresolvable import is required only if it is the only kind of breakage (then: one of them)
+		if !found && (s.reported || nReported == 0 && nFound == 0 && n == len(sites)-1) {
+			r.fail("all-reported-errors-converted never-aborts collects reported-errors-become-the-diagnostics diagnostics-are-the-reported-errors invalid-source-gives-annotations positioned-error-gives-its-annotation", "%s - diagnostics %v; the COMPILE diagnostic for %s:%d:%d (%s) is missing; want one per broken file: %v", what, c1AnnotationsOf(set), s.path, s.line, s.col, s.needle, wantAll)
+			return
+		}
+	}
+	for k := range annotations {
+		if !used[k] {
+			r.fail("diagnostics-are-the-reported-errors reported-errors-become-the-diagnostics invalid-source-gives-annotations", "%s - diagnostics %v; %d of them is at none of the planted sites %v", what, c1AnnotationsOf(set), k+1, wantAll)
+			return
+		}
+	}
+}
+
+func (r *c1Run) brokenBuildImage(ctx context.Context, b *c1BrokenWS, bucket bufmodule.ModuleReadBucket) {
+	r.checked++
+	w := b.ws
+	sites := b.reachableSites()
+	image, err := BuildImage(ctx, c1Logger, bucket, WithNoParallelism())
+	what := b.describe() + " BuildImage"
+	if len(sites) == 0 {
+		if err != nil {
+			r.fail("warnings-do-not-fail success-exactly-when-clean one-compile-of-exactly-the-paths built err", "%s: error %q; no target (or import of a target) is broken, warnings do not fail a build", what, err.Error())
+			return
+		}
+		if image == nil {
+			r.fail("image-or-error", "%s: neither an image nor an error", what)
+			return
+		}
+		r.light = true
+		r.checkImage(ctx, w, image, "BuildImage")
+		r.light = false
+		return
+	}
+	if image != nil {
+		r.fail("compile-failure-yields-no-image image-only-from-clean-compile success-exactly-when-clean", "%s - returned an image (%v, error %v) although %d file(s) do not compile", what, c1PathsOf(image.Files()), err, len(sites))
+		return
+	}
+	if err == nil {
+		r.fail("compile-failure-yields-no-image image-or-error image-only-from-clean-compile", "%s - returned neither an image nor an error although %d file(s) do not compile (%s:%d:%d)", what, len(sites), sites[0].path, sites[0].line, sites[0].col)
+		return
+	}
+	r.checkDiagnostics(what, err, sites)
+}
+
+func (r *c1Run) brokenGetBuildResult(ctx context.Context, b *c1BrokenWS, bucket bufmodule.ModuleReadBucket, reverse bool) {
+	r.checked++
+	w := b.ws
+	var paths []string
+	for _, t := range w.targets {
+		paths = append(paths, w.files[t].path)
+	}
+	sort.Strings(paths)
+	if reverse {
+		for i, j := 0, len(paths)-1; i < j; i, j = i+1, j-1 {
+			paths[i], paths[j] = paths[j], paths[i]
+		}
+	}
+	handler := newParserAccessorHandler(ctx, bufmodule.ModuleReadBucketWithOnlyProtoFiles(bucket))
+	result := getBuildResult(ctx, handler, paths, false, true)
+	what := fmt.Sprintf("%s getBuildResult(paths %v)", b.describe(), paths)
+	if result == nil {
+		r.fail("never-nil", "%s = nil", what)
+		return
+	}
+	sites := b.reachableSites()
+	if len(sites) > 0 {
+		if result.Err == nil {
+			r.fail("success-exactly-when-clean", "%s: no error although %d file(s) do not compile (%s:%d:%d)", what, len(sites), sites[0].path, sites[0].line, sites[0].col)
+			return
+		}
+		if len(result.Files) != 0 || result.Symbols != nil {
+			r.fail("no-files-on-failure newFailedBuildResult 0", "%s: the failed result (error %q) carries %d files, symbols set: %v; a failed result carries nothing but the error", what, result.Err.Error(), len(result.Files), result.Symbols != nil)
+			return
+		}
+		r.checkDiagnostics(what, result.Err, sites)
+		return
+	}
+	if result.Err != nil {
+		r.fail("warnings-do-not-fail success-exactly-when-clean one-compile-of-exactly-the-paths", "%s: error %q; every path compiles (warnings do not fail a build)", what, result.Err.Error())
+		return
+	}
+	var got []string
+	for _, f := range result.Files {
+		got = append(got, f.Path())
+	}
+	if fmt.Sprint(got) != fmt.Sprint(paths) || result.Symbols == nil {
+		r.fail("compiled-files-handed-over one-compile-of-exactly-the-paths names-match", "%s: compiled files %v (symbols set: %v); want one file per path, in the order of the paths", what, got, result.Symbols != nil)
+		return
+	}
+	if len(result.SyntaxUnspecifiedFilenames) != 0 {
+		r.fail("syntax-unspecified-from-warnings syntax", "%s: SyntaxUnspecifiedFilenames = %v; every file has a syntax line", what, result.SyntaxUnspecifiedFilenames)
+	}
+	wantUnused := map[string]bool{}
+	for _, t := range w.targets {
+		if b.states[t] == c1Warn {
+			wantUnused[w.files[t].path] = true
+		}
+	}
+	for p, set := range result.FilenameToUnusedDependencyFilenames {
+		_, only := set["w.proto"]
+		if !wantUnused[p] || len(set) != 1 || !only {
+			r.fail("unused-imports-only-from-warnings unused", "%s: FilenameToUnusedDependencyFilenames[%q] = %v; files with an unused import (of w.proto): %v", what, p, set, wantUnused)
+		}
+	}
+	for p := range wantUnused {
+		if _, ok := result.FilenameToUnusedDependencyFilenames[p]; !ok {
+			r.fail("unused-imports-only-from-warnings unused inner-sets-exist", "%s: FilenameToUnusedDependencyFilenames = %v; the unused import of w.proto in %q is not recorded", what, result.FilenameToUnusedDependencyFilenames, p)
+		}
+	}
+}
+
+func (r *c1Run) familyBroken(ctx context.Context, viaBuildImage bool, viaGetBuildResult bool) {
+	run := func(b *c1BrokenWS) {
+		bucket, err := b.ws.moduleReadBucket(ctx)
+		if err != nil {
+			fmt.Printf("VERIF-REPLAY generator problem (%s): %v\n", b.describe(), err)
+			return
+		}
+		n := len(b.ws.targets)
+		if viaBuildImage {
+			r.brokenBuildImage(ctx, b, bucket)
+		}
+		if viaGetBuildResult && (n == 2 || n == 3 || !viaBuildImage) {
+			r.brokenGetBuildResult(ctx, b, bucket, n == 3)
+		}
+	}
+	targetSets := [][]int{{0, 1, 2}, {0, 1}, {2}, {0, 1, 2, 3, 4}}
+	// the third file: good, warning, undefined type, unresolvable import
+	third := []int{c1Good, c1Warn, c1UnknownType, c1UnknownImport}
+	for code := 0; code < c1States*c1States*len(third); code++ {
+		states := []int{code % c1States, code / c1States % c1States, third[code/c1States/c1States], c1Good, c1Good}
+		b := &c1BrokenWS{states: states}
+		var files []c1File
+		for i := 0; i < 5; i++ {
+			var deps []int
+			if i < 3 {
+				deps = []int{3}
+			}
+			f, site := c1BrokenFile(i, states[i], deps)
+			files = append(files, f)
+			b.sites = append(b.sites, site)
+		}
+		for _, targets := range targetSets {
+			b.ws = &c1WS{files: files, targets: targets}
+			run(b)
+		}
+	}
+	// a good file that imports a broken one
+	for _, state := range []int{c1Syntax, c1UnknownType, c1UnknownImport, c1Duplicate} {
+		for _, importerState := range []int{c1Good, c1Warn} {
+			states := []int{importerState, state, c1Good, c1Good, c1Good}
+			b := &c1BrokenWS{states: states}
+			var files []c1File
+			for i := 0; i < 5; i++ {
+				var deps []int
+				switch i {
+				case 0:
+					deps = []int{1, 3}
+				case 1, 2:
+					deps = []int{3}
+				}
+				f, site := c1BrokenFile(i, states[i], deps)
+				files = append(files, f)
+				b.sites = append(b.sites, site)
+			}
+			for _, targets := range [][]int{{0}, {0, 1}, {0, 2}} {
+				b.ws = &c1WS{files: files, targets: targets}
+				run(b)
+			}
+		}
+	}
+}
+
+// the plain records of a build outcome
+func (r *c1Run) familyBuildRecords() {
+	errs := []error{errors.New("compile failed"), bufanalysis.NewFileAnnotationSet(bufanalysis.NewFileAnnotation(nil, 1, 2, 1, 2, "COMPILE", "m", "")), io.EOF}
+	for _, e := range errs {
+		r.checked++
+		res := newFailedBuildResult(e)
+		if res == nil {
+			r.fail("0", "newFailedBuildResult(%q) = nil", e.Error())
+			continue
+		}
+		if res.Err != e || len(res.Files) != 0 || res.Symbols != nil || res.SyntaxUnspecifiedFilenames != nil || res.FilenameToUnusedDependencyFilenames != nil {
+			r.fail("0 no-files-on-failure", "newFailedBuildResult(%q) = {Err: %v, Files: %d, Symbols set: %v, SyntaxUnspecifiedFilenames: %v, FilenameToUnusedDependencyFilenames: %v}; a failed result carries the error and nothing else", e.Error(), res.Err, len(res.Files), res.Symbols != nil, res.SyntaxUnspecifiedFilenames, res.FilenameToUnusedDependencyFilenames)
+		}
+	}
+	r.checked++
+	symbols := &linker.Symbols{}
+	syn := map[string]struct{}{"a.proto": {}}
+	unused := map[string]map[string]struct{}{"a.proto": {"w.proto": {}}}
+	res := newBuildResult(nil, symbols, syn, unused)
+	if res == nil || res.Err != nil || res.Files != nil || res.Symbols != symbols || len(res.SyntaxUnspecifiedFilenames) != 1 || len(res.FilenameToUnusedDependencyFilenames) != 1 {
+		r.fail("0", "newBuildResult(no files, symbols, {a.proto}, {a.proto: {w.proto}}) = %+v; want exactly what was given and no error", res)
+	}
+	r.checked++
+	if o := newBuildImageOptions(); o == nil || o.excludeSourceCodeInfo || o.noParallelism {
+		r.fail("0", "newBuildImageOptions() = %+v; want fresh options with nothing set", o)
+	}
+}
+
 func TestVerifReplayC01(t *testing.T) {
 	fn := os.Getenv("VERIF_REPLAY_FUNC")
 	obligation := os.Getenv("VERIF_REPLAY_OBLIGATION")
@@ -1249,6 +1678,9 @@ func TestVerifReplayC01(t *testing.T) {
 		r.familyCompileErrors(ctx)
 	case fn == "imageFileInfosWithOnlyTargetsAndTargetImportsRec" || fn == "ImageFileInfosWithOnlyTargetsAndTargetImports" || fn == "appendWellKnownTypeImageFileInfos":
 		r.familyLsFiles(ctx)
+	case fn == "newFailedBuildResult" || fn == "newBuildResult" || fn == "newBuildImageOptions":
+		r.familyBuildRecords()
+		r.familyBroken(ctx, false, true)
 	case fn == "checkAndSortFiles":
 		r.familyCheckAndSort(ctx)
 		r.familyGetImage(ctx)
@@ -1272,6 +1704,8 @@ func TestVerifReplayC01(t *testing.T) {
 		r.light = false
 		if fn == "getBuildResult" || fn == "buildImage" || fn == "BuildImage" {
 			r.familyCompileErrors(ctx)
+			r.familyBroken(ctx, true, true)
+			r.familyBuildRecords()
 		}
 	default:
 		fmt.Printf("VERIF-REPLAY no harness for %q\n", fn)
